@@ -61,7 +61,7 @@ def main(tier, args):
     jobs.append(("rpc:lane", [rpc, "lane"]))
     fam(frame, "asan", "big", 6 if thorough else 2)
     fam(frame, "asan", "bytes", 4 if thorough else 2)
-    fam(frame, "asan", "envelope", 4 if thorough else 3)
+    fam(frame, "asan", "envelope", 6 if thorough else 4)
     fam(frame, "asan", "len", 2)
     fam(frame, "asan", "packet", 1)
     fam(frame, "asan", "magic", 1)
@@ -79,9 +79,9 @@ def main(tier, args):
                    "fed as a caller does (consume the returned count, re-present the rest), must give the unsegmented message sequence and consume everything; valid frame + every hostile string (len<=%s [-O2], len<=%s [ASan]) + valid frame: same message sequence; "
                    "PACKET [ASan]: every sequence of <=3 packets, one call each, decodes as each packet alone; "
                    "HOSTILE [ASan]: header length field in {0,1,n-1,n,n+1,n+6,2^31-1,2^31,2^32-7..2^32-1} x every truncation x {alone,followed by a frame}, all 65536 magic values, every proper prefix of ~2000 valid messages, "
-                   "every byte string of length<=%s over '{}[]\"\\,:1a ' in 5 presentations, 42000 JSON-RPC envelopes with hostile field types (id in {absent,1,\"1\",1.5,2^31-1,2^31,2^63,2^64-1,-2^63,-1,null,{},true,1e300}), each bare and inside a batch array; "
+                   "every byte string of length<=%s over '{}[]\"\\,:1a ' in 5 presentations, 54000 JSON-RPC envelopes with hostile field types (id in {absent,1,\"1\",1.5,2^31-1,2^31,2^32+1,-(2^32-1),-2^31-1,2^63-1,2^63,2^64-1,-2^63,-1,null,{},true,1e300}), each bare and inside a batch array; "
                    "[-O2, 8 MiB stack] arrays nested 100..10^6 deep, well-formed (must be consumed whole) and with a mismatched innermost closer (must not be consumed): "
-                   "no exception, no crash/sanitizer report, return value <= presented size, incomplete frame -> 0, non-JSON -> not consumed, no callback for non-messages, an int-range integer id reaches the callback unchanged. "
+                   "no exception, no crash/sanitizer report, return value <= presented size, incomplete frame -> 0, non-JSON -> not consumed, no callback for non-messages, an int-range integer id reaches the callback unchanged; an integer id outside the int range (request, result and error messages, bare and in a batch) never reaches a callback as a truncated in-range id and is treated exactly like the non-integer id 1.5 in the same message (same callbacks - none for a result - and same verdict). "
                    "PARTIALLY WIRED [ASan]: the envelopes with id absent/1/\"1\" are also fed to protos with no / only the request / only the response receive callback (what Rpc::cleanup() leaves behind): no exception, same return value as the fully wired proto, exactly its callbacks of the wired kind. "
                    "BOUNDARY SIZES AND IDS [ASan]: ids {1,127,128,255,256,32767,32768,65535,65536,2^31-1,-1,-128,-129,-32768,-32769,-2^31} x {request,result,error with that code} x 3 protos round trip; "
                    "string values sized so that the encoded frame content is exactly {255,256,257,65535,65536,65537,70000%s} bytes, ending in a / escaped quote / escaped backslash, as params and as result, 3 protos: round trip equal, "
@@ -89,13 +89,13 @@ def main(tier, args):
                    "LOGGING: every odd ASan partition (and every single-partition family) runs its protos with setLogEnable(true)+setLogLabel; each log record is really formatted by an instrumented sink (checks/C14/log_fmt_stub.cpp). "
                    "(H, completion) BFS depth %d over {request with behaviour in (plain: peer's service defers | completion callback issues a follow-up | peer's service answers synchronously with a result | ... with an error | unknown method (kMethodNotFound) | "
                    "synchronous answer whose callback, running inside request(), issues a follow-up | two notify() overloads then the request(method, cb) overload), "
-                   "deliver result|error for any issued request (hence duplicate/late too), one op delivering responses with a future id, id 1000, id 0 (result and error) and id -1, advance 1 s + loop pass, "
+                   "deliver result|error for any issued request (hence duplicate/late too), one op delivering responses with a future id, id 1000, id 0 (result and error), id -1 and, for every id issued so far in either direction, result and error responses whose id is that id +2^32, -2^32, +3*2^32 and +(2^32-1)*2^32 (equal to it after truncation to 32 bits), advance 1 s + loop pass, "
                    "[op r] Rpc::cleanup() + three deliveries into the now unwired proto + initialize() + addService, at most once, [op b] one request in the opposite direction (same numeric ids) and its answer} "
                    "on two real Rpc peers wired back-to-back on a real loop with a virtual monotonic clock; <=3 requests A->B; timeout_sec in {1,2,3,default 30 (advance = 10 ticks)}; 3 protos; epoll+select; %s; "
                    "reference model = per-request ring countdown per side; oracle = callback exactly once, with the matching response if delivered before the ring wraps (inside request() for a synchronous answer), else kRequestTimeout in exactly that tick; "
                    "after cleanup+initialize: requests of the first session are never called back again and responses carrying their ids are ignored, requests of the second session complete like any other, timeouts included; "
                    "canonical state = per side: id counter, pending-callback ids, to-be-responded set, both TimeoutMonitor rings + timer/callback flags, service count; loop timer heap; ids seen by each peer; model: pending countdowns, chaining flag, budget. "
-                   "LANE (deterministic, outside the BFS; 3 protos x 2 engines x timeout {1,2,3} x N in {2,20,60}): L1 N pending, the callback of the first response issues 15 follow-ups, the rest answered in reverse, all duplicated, late copies after the timeouts; "
+                   "LANE (deterministic, outside the BFS; 3 protos x 2 engines x timeout {1,2,3} x N in {2,20,60}): L1 N pending, responses with every pending id +-2^32 (ignored), the callback of the first response issues 15 follow-ups, the rest answered in reverse, all duplicated, late copies after the timeouts; "
                    "L2 two staggered groups never answered: the first timeout callback makes the peer answer every other request re-entrantly and issues 15 follow-ups; L3 a chain of N synchronously answered requests each issued from the previous callback: "
                    "every callback exactly once with its own result or its timeout in exactly its tick" % (b[:7] + (",2^24" if thorough else "", b[7], "ops r and b together on every configuration with an explicit timeout_sec, op r alone with the 30 s default" if thorough else "op r on every configuration, op b (without r) on raw/epoll/timeout 2")),
               assumptions=["decoded values are observed through the public request/response callbacks, so test values travel as params/result of JSON-RPC envelopes (DESIGN 1.7)",
